@@ -66,6 +66,9 @@ type ckConfig struct {
 	rl        bool
 	logins    int
 	window    time.Duration
+	// SSO mode only: the ingresses of an SSO PROXY deployed in front of an application on the same SSO domain, relaying to this
+	// SSO server (not part of tokens(): named on the cpscript lines that use it)
+	proxyIngresses []string
 }
 
 // Model flags (lib/code_flags.json): which variant of the code under test the Coq model has to follow.
@@ -113,7 +116,15 @@ func (c ckConfig) stackOpts() stackOpts {
 	rl := &config.RateLimit{Enabled: c.rl, Logins: c.logins, Window: c.window}
 	return stackOpts{maxLifetime: 10 * time.Hour, par: true, ingresses: c.ingresses, rateLimit: rl, legacyCookie: c.legacy,
 		sso: c.sso, cookieSecure: c.secure, cookieSameSite: c.sameSite, cookiePrefix: c.prefix, ssoDomain: c.domain,
-		ssoCookieName: c.name, ssoDefaultTarget: "https://app.example.com/"}
+		ssoCookieName: c.name, ssoDefaultTarget: "https://app.example.com/", proxyIngresses: c.proxyIngresses, ssoServerURL: c.serverURL()}
+}
+
+// serverURL: sso.server-url of the proxy = the SSO server's first ingress
+func (c ckConfig) serverURL() string {
+	if len(c.proxyIngresses) == 0 || len(c.ingresses) == 0 {
+		return ""
+	}
+	return c.ingresses[0]
 }
 
 // ---------------------------------------------------------------- the browser
@@ -144,6 +155,10 @@ type ckBrowser struct {
 	pending  url.Values // authorization request parameters of the last successful login start
 	sid      string
 	nsid     int
+	// the SSO proxy's origin (scripts of an SSO deployment with a proxy); viaProxy: the next request goes there
+	pxHTTPS    bool
+	pxHostport string
+	viaProxy   bool
 }
 
 func newBrowser(s *stack, https bool, hostport string) *ckBrowser {
@@ -160,10 +175,14 @@ func (b *ckBrowser) canonicalHost() string {
 }
 
 func (b *ckBrowser) base() string {
-	if b.https {
-		return "https://" + b.hostport
+	https, hostport := b.https, b.hostport
+	if b.viaProxy {
+		https, hostport = b.pxHTTPS, b.pxHostport
 	}
-	return "http://" + b.hostport
+	if https {
+		return "https://" + hostport
+	}
+	return "http://" + hostport
 }
 
 type ckResp struct {
@@ -195,7 +214,11 @@ func (b *ckBrowser) getCancel(pathAndQuery string, d time.Duration) ckResp {
 		req.AddCookie(c)
 	}
 	rec := httptest.NewRecorder()
-	b.s.mainRt.ServeHTTP(rec, req)
+	if b.viaProxy {
+		b.s.proxyRt.ServeHTTP(rec, req)
+	} else {
+		b.s.mainRt.ServeHTTP(rec, req)
+	}
 	res := rec.Result()
 	cs := res.Cookies()
 	b.jar.SetCookies(u, cs)
@@ -298,6 +321,8 @@ func (b *ckBrowser) request(ep, path, fault string, prompt bool) ckResp {
 		}
 	case "C":
 		switch {
+		case b.viaProxy:
+			// the proxy's callback route only redirects to its own login
 		case fault == "n" || (strings.HasPrefix(base, "e") && cause != ""):
 			// a callback that passes every browser-side check (code and state of the pending login); with a cause the failure
 			// comes afterwards, from the token endpoint or from the session store
@@ -321,7 +346,7 @@ func (b *ckBrowser) request(ep, path, fault string, prompt bool) ckResp {
 	undo, cancelAfter := b.arrange(ep, fault)
 	r := b.getCancel(path+q, cancelAfter)
 	undo()
-	if ep == "L" {
+	if ep == "L" && !b.viaProxy {
 		b.notePending(r)
 	}
 	return r
@@ -388,9 +413,14 @@ type ckItem struct {
 	// follow
 	via    bool
 	faults []string
+	// request sent to the SSO proxy's origin instead of the browser's own (the SSO server's)
+	proxy bool
 }
 
 func (it ckItem) tokens() string {
+	if it.proxy {
+		return fmt.Sprintf("P %d %s %s %s %s", int64(it.dt), it.ep, hx(it.path), it.fault, b01(it.prompt))
+	}
 	if it.follow {
 		fs := "~"
 		if len(it.faults) > 0 {
@@ -469,6 +499,9 @@ type ckScript struct {
 	hostport string
 	probes   []ckOrigin
 	items    []ckItem
+	// scripts with requests through the SSO proxy: its origin
+	pxHTTPS    bool
+	pxHostport string
 }
 
 // runScripts runs all scripts of one configuration against one stack (fresh browser per script).
@@ -483,10 +516,19 @@ func runScripts(cfg ckConfig, scripts []ckScript, win, wimpl *bufio.Writer) (n i
 			return
 		}
 		defer s.close()
+		if s.proxy != nil && len(cfg.proxyIngresses) > 0 {
+			// the proxy reaches the SSO server's router in process (what it relays: local and front-channel logout, session endpoints)
+			s.proxy.SSOServerReverseProxy.Transport = &inprocRT{h: s.mainRt}
+		}
 		for _, sc := range scripts {
 			b := newBrowser(s, sc.https, sc.hostport)
 			now0 := time.Now().UnixNano()
 			in := []string{"cscript", cfg.tokens(), b01(sc.https), hx(b.canonicalHost()), hx(sc.hostport), fmt.Sprint(now0), fmt.Sprint(len(sc.probes))}
+			if sc.pxHostport != "" {
+				b.pxHTTPS, b.pxHostport = sc.pxHTTPS, sc.pxHostport
+				in = []string{"cpscript", cfg.tokens(), b01(sc.https), hx(b.canonicalHost()), hx(sc.hostport), fmt.Sprint(now0),
+					b01(sc.pxHTTPS), hx(canon(sc.pxHostport)), hx(sc.pxHostport), hxList(cfg.proxyIngresses), fmt.Sprint(len(sc.probes))}
+			}
 			for _, p := range sc.probes {
 				in = append(in, b01(p.https), hx(p.host), hx(p.path))
 			}
@@ -502,7 +544,9 @@ func runScripts(cfg ckConfig, scripts []ckScript, win, wimpl *bufio.Writer) (n i
 					out = append(out, strings.Join(parts, " "), b.tProbes(sc.probes))
 				} else {
 					time.Sleep(it.dt)
+					b.viaProxy = it.proxy
 					r := b.request(it.ep, it.path, it.fault, it.prompt)
+					b.viaProxy = false
 					out = append(out, "; "+tResponse(r), b.tProbes(sc.probes))
 				}
 			}
@@ -532,6 +576,13 @@ var ingressSets = []ingressSet{
 	{[]string{"https://app.example.com/app", "https://other.example.com/other/deep/"}, false},
 }
 
+// ingresses of the SSO proxy in the SSO deployments (an application on the same SSO domain as the server)
+var proxyIngressSets = [][]string{
+	{"https://app.example.com"},
+	{"https://app.example.com/app"},
+	{"https://app.example.com", "https://app.example.com/app"},
+}
+
 func ckConfigs(tier string) []ckConfig {
 	var out []ckConfig
 	rlOff := func(c ckConfig) ckConfig { c.rl, c.logins, c.window = false, 5, 5*time.Second; return c }
@@ -554,12 +605,12 @@ func ckConfigs(tier string) []ckConfig {
 		for i, ss := range []string{"Lax", "None", "Strict"} {
 			for _, dom := range []string{"example.com", ".example.com"} {
 				out = append(out, rlOff(ckConfig{secure: secure, sameSite: ss, prefix: defaultPrefix, ingresses: []string{"https://sso.example.com"},
-					sso: true, domain: dom, name: "sso.session.name", legacy: i != 1}))
+					sso: true, domain: dom, name: "sso.session.name", legacy: i != 1, proxyIngresses: proxyIngressSets[(i+len(dom))%len(proxyIngressSets)]}))
 			}
 		}
 	}
 	out = append(out, rlOff(ckConfig{secure: true, sameSite: "None", prefix: "ignored.prefix", ingresses: []string{"https://sso.example.com", "https://sso.example.com/sso"},
-		sso: true, domain: "example.com", name: "n", legacy: false}))
+		sso: true, domain: "example.com", name: "n", legacy: false, proxyIngresses: proxyIngressSets[1]}))
 	out = append(out, rlOff(ckConfig{secure: false, sameSite: "Lax", prefix: defaultPrefix, ingresses: []string{"http://localhost:8080"},
 		sso: true, domain: "localhost", name: "sso-local", legacy: true}))
 	// rate limit on
@@ -567,6 +618,11 @@ func ckConfigs(tier string) []ckConfig {
 		c := ckConfig{secure: !is.local, sameSite: "Lax", prefix: defaultPrefix, ingresses: is.ingresses, rl: true, logins: 2, window: 3 * time.Second}
 		out = append(out, c)
 	}
+	// ... with the cookie names of a custom cookie.prefix and of SSO mode (the login counter shares its responses with the login cookie)
+	out = append(out,
+		ckConfig{secure: true, sameSite: "Lax", prefix: "my.prefix", ingresses: ingressSets[4].ingresses, rl: true, logins: 2, window: 3 * time.Second},
+		ckConfig{secure: true, sameSite: "Strict", prefix: defaultPrefix, ingresses: []string{"https://sso.example.com"}, sso: true, domain: "example.com",
+			name: "sso.session.name", legacy: true, rl: true, logins: 2, window: 3 * time.Second, proxyIngresses: proxyIngressSets[0]})
 	return out
 }
 
@@ -723,6 +779,121 @@ func scriptsFor(cfg ckConfig, rng *rand.Rand, nrandom int) []ckScript {
 				}
 			}
 			add(h, items...)
+		}
+	}
+	return out
+}
+
+// proxyScriptsFor: histories of a browser in an SSO deployment with BOTH parties - the SSO server (cfg.ingresses) and an SSO proxy
+// in front of an application on the same SSO domain (cfg.proxyIngresses; real handler.NewSSOProxy whose SSOServerReverseProxy
+// reaches the server's router in process). Login happens at the server (the only place where it can); requests and every
+// logout variant go through the proxy and to the server.
+func proxyScriptsFor(cfg ckConfig, rng *rand.Rand, nrandom int) []ckScript {
+	var out []ckScript
+	if !cfg.sso || len(cfg.proxyIngresses) == 0 {
+		return nil
+	}
+	probes := probesFor(cfg)
+	pc := ckConfig{ingresses: cfg.proxyIngresses}
+	for _, ph := range hostsOf(pc) {
+		for _, pp := range ph.paths {
+			if pp != "" {
+				for _, https := range []bool{false, true} {
+					probes = append(probes, ckOrigin{https, canon(ph.hostport), pp + "/oauth2/session"})
+				}
+			}
+		}
+	}
+	P := func(ep, path, fault string) ckItem { return ckItem{ep: ep, path: path, fault: fault, proxy: true} }
+	for _, h := range hostsOf(cfg) {
+		for _, ph := range hostsOf(pc) {
+			add := func(items ...ckItem) {
+				out = append(out, ckScript{cfg: cfg, https: h.https, hostport: h.hostport, probes: probes, items: items,
+					pxHTTPS: ph.https, pxHostport: ph.hostport})
+			}
+			for _, p := range h.paths {
+				o := p + "/oauth2"
+				login := []ckItem{req("L", o+"/login", "n"), req("C", o+"/callback", "n")}
+				seq := func(items ...ckItem) []ckItem { return append(append([]ckItem{}, login...), items...) }
+				for _, pp := range ph.paths {
+					po := pp + "/oauth2"
+					// every logout variant at the application's origin (through the proxy) ...
+					add(seq(P("K", po+"/logout/local", "n"))...)
+					add(seq(P("F", po+"/logout/frontchannel", "n"))...)
+					add(seq(P("F", po+"/logout/frontchannel", "s"))...)
+					add(seq(P("O", po+"/logout", "n"), req("O", o+"/logout", "n"), req("B", o+"/logout/callback", "n"))...)
+					add(seq(P("O", po+"/logout", "n"), P("B", po+"/logout/callback", "n"), req("O", o+"/logout", "n"), P("K", po+"/logout/local", "n"))...)
+					// ... and at the server, with the proxy's own (cookie-less) login / callback routes in between
+					add(seq(P("L", po+"/login", "n"), P("C", po+"/callback", "n"), req("K", o+"/logout/local", "n"))...)
+					add(seq(P("L", po+"/login", "n"), req("F", o+"/logout/frontchannel", "n"), P("K", po+"/logout/local", "n"))...)
+					// error paths relayed by the proxy: the session store fails while the server handles the relayed local logout
+					// (retry cookie and 307 come back through the proxy), then it works
+					add(seq(P("K", po+"/logout/local", "e500.s"), P("K", po+"/logout/local", "e500.s"), P("K", po+"/logout/local", "e500.s"),
+						P("K", po+"/logout/local", "e500.s"), P("K", po+"/logout/local", "n"))...)
+					// without a session; logging in again after a logout through the proxy
+					add(P("K", po+"/logout/local", "n"), P("F", po+"/logout/frontchannel", "s"), req("L", o+"/login", "n"), req("C", o+"/callback", "n"),
+						P("K", po+"/logout/local", "n"), req("L", o+"/login", "n"), req("C", o+"/callback", "n"), P("F", po+"/logout/frontchannel", "n"))
+				}
+				for k := 0; k < nrandom; k++ {
+					var items []ckItem
+					loggedIn, pending := false, false
+					n := 4 + rng.Intn(10)
+					for i := 0; i < n; i++ {
+						po := ph.paths[rng.Intn(len(ph.paths))] + "/oauth2"
+						switch c := rng.Intn(12); {
+						case c < 2:
+							prompt := rng.Intn(5) == 0
+							items = append(items, ckItem{ep: "L", path: o + "/login", fault: "n", prompt: prompt})
+							pending = true
+							if prompt {
+								loggedIn = false // login?prompt=login ends the session at once
+							}
+						case c < 4:
+							if pending {
+								items = append(items, req("C", o+"/callback", "n"))
+								loggedIn, pending = true, false
+							} else {
+								items = append(items, P("C", po+"/callback", "n"))
+							}
+						case c < 6:
+							// the store fault only bites when there is a session to look up
+							f := "n"
+							if loggedIn && rng.Intn(3) == 0 {
+								f = "e500.s"
+							}
+							items = append(items, P("K", po+"/logout/local", f))
+							if f == "n" {
+								loggedIn = false
+							}
+						case c == 6:
+							if loggedIn {
+								items = append(items, P("F", po+"/logout/frontchannel", "n"))
+								loggedIn = false
+							} else {
+								items = append(items, P("F", po+"/logout/frontchannel", "s"))
+							}
+						case c == 7:
+							items = append(items, P("O", po+"/logout", "n"), req("O", o+"/logout", "n"), req("B", o+"/logout/callback", "n"))
+							loggedIn = false
+						case c == 8:
+							items = append(items, P("L", po+"/login", "n"))
+						case c == 9:
+							items = append(items, req("K", o+"/logout/local", "n"))
+							loggedIn = false
+						case c == 10:
+							items = append(items, P("B", po+"/logout/callback", "n"))
+						default:
+							if loggedIn {
+								items = append(items, req("F", o+"/logout/frontchannel", "n"))
+								loggedIn = false
+							} else {
+								items = append(items, req("F", o+"/logout/frontchannel", "s"))
+							}
+						}
+					}
+					add(items...)
+				}
+			}
 		}
 	}
 	return out
@@ -970,6 +1141,22 @@ func runCookies(args []string) error {
 				}
 			}
 		}
+		// 2b. the cookie names: the package variables of pkg/cookie after the lines of cmd/wonderwall/main.go that configure them
+		for _, prefix := range []string{defaultPrefix, "my.prefix", "x", "", "io.nais.wonderwall.x", "io.nais", "Io.Nais.Wonderwall", "a.callback", "p\xc3\xb8"} {
+			for _, sso := range []bool{false, true} {
+				for _, name := range []string{"sso.session.name", "n", "", defaultPrefix, defaultPrefix + ".session", defaultPrefix + ".logincount", "selvbetjening-idtoken"} {
+					if !sso && name != "n" {
+						continue
+					}
+					c := ckConfig{secure: true, sameSite: "Lax", prefix: prefix, ingresses: []string{"https://app.example.com"}, sso: sso, domain: "example.com", name: name}
+					restore := c.configureNames()
+					fmt.Fprintf(win, "cnames %s\n", c.tokens())
+					fmt.Fprintf(wimpl, "%s %s %s %s %s\n", hx(cookie.Login), hx(cookie.LoginCount), hx(cookie.Logout), hx(cookie.Retry), hx(cookie.Session))
+					restore()
+					counts["cookie-names"]++
+				}
+			}
+		}
 		// 3. MatchingPath
 		ipaths := [][]string{{""}, {"/app"}, {"", "/app"}, {"/app", "/app/sub"}, {"/a", "/ab", "/abc"}, {"", "/o"}, {"/app", "/app/oauth"}, {"/x/", "/x//"}}
 		var reqs []string
@@ -994,11 +1181,14 @@ func runCookies(args []string) error {
 			nrandom = 120
 		}
 		for _, cfg := range ckConfigs(*tier) {
-			n, err := runScripts(cfg, scriptsFor(cfg, rng, nrandom), win, wimpl)
+			scripts := scriptsFor(cfg, rng, nrandom)
+			px := proxyScriptsFor(cfg, rng, nrandom/2)
+			n, err := runScripts(cfg, append(scripts, px...), win, wimpl)
 			if err != nil {
 				return err
 			}
 			counts["scripts"] += n
+			counts["scripts-through-sso-proxy"] += len(px)
 			counts["configs"]++
 		}
 	}
